@@ -125,6 +125,10 @@ func (c *Collection) Update(id string, msg proto.Message, opts ...WriteOption) (
 				if err != nil {
 					return nil, err
 				}
+				if c.idInterceptor != nil {
+					// the item is stored under the intercepted id, the same one genID checked for existence
+					id = c.idInterceptor(id)
+				}
 				if writeRequest.idCallback != nil {
 					writeRequest.idCallback(id)
 				}
